@@ -279,6 +279,29 @@ Definition run_c19 (a : list Z) : list Z :=
   | _ => [-99]
   end.
 
+(* ---- C17 parallel progress increments: [fmt; quality; w; h] -> [-1] | sorted fragment heights *)
+Definition run_c17 (a : list Z) : list Z :=
+  match a with
+  | [fmt; q; w; h] =>
+    match find_fmt fmt_table (zn fmt) with
+    | None => [-97]
+    | Some row =>
+      let fh :=
+        match f_enc row, find (fun r => fst r =? zn fmt)%N frag_table with
+        | Some en, Some (_, fps) =>
+            fragment_height (zn w) (zn h) (e_split_height en) (negb (e_local_dither en =? 0)%N)
+              (negb (e_dither_color en =? 0)%N, negb (e_dither_alpha en =? 0)%N) (false, false) (nth (Z.to_nat q) fps 0%N)
+        | _, _ => None
+        end in
+      match fh with
+      | None => [-1]
+      | Some f => let len := split_len (zn h) fh in
+                  nz (zn h - (len - 1) * f) :: repeat (nz f) (N.to_nat (len - 1))
+      end
+    end
+  | _ => [-99]
+  end.
+
 Definition run_case (tag : Z) (args : list Z) : list Z :=
   match tag with
   | 20 => run_c20 args
@@ -290,6 +313,7 @@ Definition run_case (tag : Z) (args : list Z) : list Z :=
   | 14 => run_c14 args
   | 9 => run_c09 args
   | 19 => run_c19 args
+  | 17 => run_c17 args
   | _ => [-98]
   end.
 
